@@ -133,6 +133,9 @@ def i3_latches(ctx, RL):
                 continue
             val = const_value(n.get('rhs')) if n.get('k') == 'assign' and how == '=' else None
             gs = {(r.r(c), pol) for c, pol, s in guards_at(f['body'], n)}
+            # the sampled value may sit in a named temporary: expand single-assignment locals
+            from .. import boolform
+            gs |= boolform.literals(boolform.path_condition(f['body'], n, boolform.Former(f, renderer=Renderer(f)))) or set()
             if val == 1:
                 # must be directly guarded by exchange(false) of the matching latch
                 if p[1] == 'ip':
